@@ -334,6 +334,11 @@ theorem callTtlCheck_packed (t : Nat) (rest : Bytes) (ttl : Nat) (now : Int) (ht
   · exact ttlCheckFlat_packed _ t rest ttl now ht
   · exact ttlCheck_packed _ t rest ttl now ht
 
+theorem createdAtOf_packed (t : Nat) (rest : Bytes) (ht : t < 256 ^ Token.tsFmtWidth) :
+    createdAtOf (leBytes Token.tsFmtWidth t ++ rest) = t := by
+  unfold createdAtOf
+  rw [List.take_left' (length_leBytes _ _), leVal_leBytes _ _ ht]
+
 /-! ## identity -/
 
 theorem utf8_eq_toByteArray (s : List Char) : utf8 s = (String.ofList s).toByteArray.data.toList := by
@@ -563,9 +568,10 @@ theorem openCursorObs_ok {strict : Bool} {z : Zstd} {key : KeyId} {a : Bytes} {t
       | crash => rw [hu] at h; cases h
 
 theorem openCallObs_ok {strict : Bool} {z : Zstd} {key : KeyId} {a : Bytes} {ttl : Nat} {now : Int} {o : WireObs}
-    {x : Bytes × CallBody} (h : openCallObs strict z key a ttl now o = .ok x) :
+    {x : Bytes × CallBody × Nat} (h : openCallObs strict z key a ttl now o = .ok x) :
     ∃ t n sp plain, decodeObs strict o = some t ∧ t = .sealed key a Token.callTokenVersion n sp ∧
-      unpackTagged z sp = .ok plain ∧ unpackCallPlain plain = .ok x ∧ callTtlCheck plain ttl now = .ok () := by
+      unpackTagged z sp = .ok plain ∧ unpackCallPlain plain = .ok (x.1, x.2.1) ∧ callTtlCheck plain ttl now = .ok () ∧
+      x.2.2 = createdAtOf plain := by
   unfold openCallObs at h
   cases hd : decodeObs strict o with
   | none => rw [hd] at h; cases h
@@ -586,7 +592,7 @@ theorem openCallObs_ok {strict : Bool} {z : Zstd} {key : KeyId} {a : Bytes} {ttl
           | ok u =>
             rw [htl] at h; simp only at h
             cases h
-            exact ⟨t, n, sp, plain, rfl, ht, hu, hc, by cases u; exact htl⟩
+            exact ⟨t, n, sp, plain, rfl, ht, hu, hc, by cases u; exact htl, rfl⟩
           | reject _ => rw [htl] at h; cases h
           | missingCall => rw [htl] at h; cases h
           | decodeError => rw [htl] at h; cases h
@@ -659,13 +665,15 @@ theorem openCursor_sound {sh : Shape} {E : Wire} {z : Zstd} {srv : Server} {keys
 
 /-- **call side** -/
 theorem openCall_sound {sh : Shape} {E : Wire} {z : Zstd} {srv : Server} {keys : List KeyId} {W : World}
-    {who : Identity} {m : List Char} {now : Int} {w : Bytes} {cid : Bytes} {body : CallBody}
+    {who : Identity} {m : List Char} {now : Int} {w : Bytes} {cid : Bytes} {body : CallBody} {created : Nat}
     (hz : z.Lawful) (hk : srv.key ∉ keys) (hwf : ∀ km ∈ W.calls, km.WF)
     (hknown : ∀ t, E.dec w = some t → Known (W.toks sh z srv.key) keys t) (hnf : who.NulFreeDomain) (hnm : NulFree m)
-    (h : openCallObs sh.strictB64 z srv.key (callAad sh.methodBound m who) srv.ttl now (E.observe w) = .ok (cid, body)) :
+    (h : openCallObs sh.strictB64 z srv.key (callAad sh.methodBound m who) srv.ttl now (E.observe w) = .ok (cid, body, created)) :
     ∃ km ∈ W.calls, E.dec w = some (km.tok sh z srv.key) ∧ (sh.strictB64 = true → w = E.enc (km.tok sh z srv.key)) ∧
-      km.who = who ∧ (sh.methodBound = true → km.method = m) ∧ km.callId = cid ∧ km.body = body ∧ Fresh srv.ttl now km.t := by
-  obtain ⟨t, n, sp, plain, hd, ht, hu, hc, htl⟩ := openCallObs_ok h
+      km.who = who ∧ (sh.methodBound = true → km.method = m) ∧ km.callId = cid ∧ km.body = body ∧ Fresh srv.ttl now km.t ∧
+      created = km.t := by
+  obtain ⟨t, n, sp, plain, hd, ht, hu, hc, htl, hcr⟩ := openCallObs_ok h
+  simp only at hc hcr
   obtain ⟨hdec, hcanon⟩ := decodeObs_observe hd
   have hkn := hknown t hdec
   subst ht
@@ -695,12 +703,13 @@ theorem openCall_sound {sh : Shape} {E : Wire} {z : Zstd} {srv : Server} {keys :
       cases hu
       rw [unpackCallPlain_pack km.t km.callId km.body w1 w3] at hc
       cases hc
-      exact ⟨hid.1, hid.2, rfl, rfl, fresh_of_callTtlCheck w2 htl⟩
+      refine ⟨hid.1, hid.2, rfl, rfl, fresh_of_callTtlCheck w2 htl, ?_⟩
+      rw [hcr]; exact createdAtOf_packed _ _ w2
 
 
 /-! ## the invariant of the token system -/
 
-structure Inv (sh : Shape) (W : World) : Prop where
+structure Inv (sh : Shape) (ttl : Nat) (W : World) : Prop where
   wfc : ∀ cm ∈ W.cursors, cm.WF
   wfk : ∀ km ∈ W.calls, km.WF
   /-- call ids are unique (they are fresh 16-byte random values) -/
@@ -708,9 +717,10 @@ structure Inv (sh : Shape) (W : World) : Prop where
   /-- every cursor belongs to a call minted for the same identity (and, when bound, by the same method) -/
   owner : ∀ cm ∈ W.cursors, ∃ km ∈ W.calls, km.callId = cm.callId ∧ km.who = cm.who ∧
             (sh.methodBound = true → km.method = cm.method)
-  /-- every cache entry was put for a minted call -/
-  cache : ∀ i cid s e, W.caches i cid s = some e → ∃ km ∈ W.calls, km.callId = cid ∧ cacheIdent km.who = s ∧
-            km.body = e.body ∧ (sh.methodBound = true → km.method = e.method)
+  /-- every cache entry was put for a minted call, and — when tokens expire — does not outlive that call's token -/
+  cache : ∀ i cid s exp e, W.caches i cid s = some (exp, e) → ∃ km ∈ W.calls, km.callId = cid ∧ cacheIdent km.who = s ∧
+            km.body = e.body ∧ (sh.methodBound = true → km.method = e.method) ∧
+            (ttl > 0 → exp ≤ (km.t : Int) + (ttl : Int))
 
 /-- what an accepted request is, in terms of the history: the cursor mint `cm` and the call mint `km` behind it -/
 structure SoundFor (sh : Shape) (E : Wire) (z : Zstd) (srv : Server) (r : Req) (acc : Accepted)
@@ -724,16 +734,18 @@ structure SoundFor (sh : Shape) (E : Wire) (z : Zstd) (srv : Server) (r : Req) (
   callId : km.callId = acc.callId
   callWho : km.who = r.who
   callBody : km.body = acc.entry.body
+  /-- the stream's call token is within the TTL — on a cache hit as well (the entry does not outlive the token) -/
+  callFresh : Fresh srv.ttl r.now km.t
   method : sh.methodBound = true → km.method = r.method ∧ cm.method = r.method ∧ acc.entry.method = r.method
-  miss : acc.hit = false → ∃ cw, r.call = some cw ∧ E.dec cw = some (km.tok sh z srv.key) ∧
-           (sh.strictB64 = true → cw = E.enc (km.tok sh z srv.key)) ∧ Fresh srv.ttl r.now km.t
+  miss : acc.hit = false → acc.created = km.t ∧ ∃ cw, r.call = some cw ∧ E.dec cw = some (km.tok sh z srv.key) ∧
+           (sh.strictB64 = true → cw = E.enc (km.tok sh z srv.key))
 
 def Sound (sh : Shape) (E : Wire) (z : Zstd) (srv : Server) (W : World) (r : Req) (acc : Accepted) : Prop :=
   ∃ cm ∈ W.cursors, ∃ km ∈ W.calls, SoundFor sh E z srv r acc cm km
 
-theorem finishRecover_ok {D : Decoders} {st cid : Bytes} {e : CacheEntry} {hit : Bool}
+theorem finishRecover_ok {D : Decoders} {st cid : Bytes} {e : CacheEntry} {hit : Bool} {created : Nat}
     {effs0 effs : List Effect} {acc : Accepted}
-    (h : finishRecover D st cid e hit effs0 = (effs, .ok acc)) : acc = ⟨st, cid, e, hit⟩ := by
+    (h : finishRecover D st cid e hit created effs0 = (effs, .ok acc)) : acc = ⟨st, cid, e, hit, created⟩ := by
   unfold finishRecover at h
   simp only [Prod.mk.injEq] at h
   obtain ⟨_, h2⟩ := h
@@ -741,10 +753,24 @@ theorem finishRecover_ok {D : Decoders} {st cid : Bytes} {e : CacheEntry} {hit :
   · cases h2; rfl
   · cases h2
 
+theorem cache_get_some {c : Cache} {cid : Bytes} {s : List Char} {now : Int} {e : CacheEntry}
+    (h : c.get cid s now = some e) : ∃ exp, c cid s = some (exp, e) ∧ now < exp := by
+  unfold Cache.get at h
+  cases hc : c cid s with
+  | none => rw [hc] at h; cases h
+  | some p =>
+    obtain ⟨exp, e'⟩ := p
+    rw [hc] at h; simp only at h
+    split at h
+    · cases h
+    · rename_i hlt
+      cases h
+      exact ⟨exp, rfl, by omega⟩
+
 theorem resolveCallFromToken_ok {sh : Shape} {z : Zstd} {D : Decoders} {srv : Server} {r : ReqObs} {expected : Bytes}
-    {e : CacheEntry} (h : resolveCallFromToken sh z D srv r expected = .ok e) :
+    {e : CacheEntry} {created : Nat} (h : resolveCallFromToken sh z D srv r expected = .ok (e, created)) :
     ∃ co body, r.call = some co ∧
-      openCallObs sh.strictB64 z srv.key (callAad sh.methodBound r.method r.who) srv.ttl r.now co = .ok (expected, body) ∧
+      openCallObs sh.strictB64 z srv.key (callAad sh.methodBound r.method r.who) srv.ttl r.now co = .ok (expected, body, created) ∧
       e = ⟨r.method, body⟩ := by
   unfold resolveCallFromToken at h
   cases hcall : r.call with
@@ -753,7 +779,7 @@ theorem resolveCallFromToken_ok {sh : Shape} {z : Zstd} {D : Decoders} {srv : Se
     rw [hcall] at h; simp only at h
     cases ho : openCallObs sh.strictB64 z srv.key (callAad sh.methodBound r.method r.who) srv.ttl r.now co with
     | ok y =>
-      obtain ⟨cid', body⟩ := y
+      obtain ⟨cid', body, cr⟩ := y
       rw [ho] at h; simp only at h
       split at h
       · cases h
@@ -773,17 +799,17 @@ theorem resolveCallFromToken_ok {sh : Shape} {z : Zstd} {D : Decoders} {srv : Se
 theorem recoverObs_ok {sh : Shape} {z : Zstd} {D : Decoders} {srv : Server} {cache : Cache} {r : ReqObs}
     {effs : List Effect} {acc : Accepted} (h : recoverObs sh z D srv cache r = (effs, .ok acc)) :
     ∃ st cid, openCursorObs sh.strictB64 z srv.key (aad r.who) srv.ttl r.now r.cursor = .ok (st, cid) ∧
-      ((∃ e, cache cid (cacheIdent r.who) = some e ∧ acc = ⟨st, cid, e, true⟩ ∧
+      ((∃ e, cache.get cid (cacheIdent r.who) r.now = some e ∧ acc = ⟨st, cid, e, true, 0⟩ ∧
           (sh.methodBound = true → e.method = r.method) ∧ D.hitTypeDeclared e = true) ∨
-       (cache cid (cacheIdent r.who) = none ∧ ∃ e, resolveCallFromToken sh z D srv r cid = .ok e ∧
-          acc = ⟨st, cid, e, false⟩)) := by
+       (cache.get cid (cacheIdent r.who) r.now = none ∧ ∃ e created, resolveCallFromToken sh z D srv r cid = .ok (e, created) ∧
+          acc = ⟨st, cid, e, false, created⟩)) := by
   unfold recoverObs at h
   cases hc : openCursorObs sh.strictB64 z srv.key (aad r.who) srv.ttl r.now r.cursor with
   | ok x =>
     obtain ⟨st, cid⟩ := x
     rw [hc] at h; simp only at h
     refine ⟨st, cid, rfl, ?_⟩
-    cases hl : cache cid (cacheIdent r.who) with
+    cases hl : cache.get cid (cacheIdent r.who) r.now with
     | some e =>
       rw [hl] at h; simp only at h
       split at h
@@ -799,9 +825,10 @@ theorem recoverObs_ok {sh : Shape} {z : Zstd} {D : Decoders} {srv : Server} {cac
     | none =>
       rw [hl] at h; simp only at h
       cases hr : resolveCallFromToken sh z D srv r cid with
-      | ok e =>
+      | ok y =>
+        obtain ⟨e, created⟩ := y
         rw [hr] at h; simp only at h
-        exact Or.inr ⟨rfl, e, rfl, finishRecover_ok h⟩
+        exact Or.inr ⟨rfl, e, created, rfl, finishRecover_ok h⟩
       | reject _ => rw [hr] at h; simp at h
       | missingCall => rw [hr] at h; simp at h
       | decodeError => rw [hr] at h; simp at h
@@ -813,7 +840,7 @@ theorem recoverObs_ok {sh : Shape} {z : Zstd} {D : Decoders} {srv : Server} {cac
 
 theorem recover_sound {sh : Shape} {E : Wire} {z : Zstd} {D : Decoders} {srv : Server} {keys : List KeyId} {W : World}
     {i : Nat} {r : Req} {effs : List Effect} {acc : Accepted}
-    (hinv : Inv sh W) (hz : z.Lawful) (hk : srv.key ∉ keys)
+    (hinv : Inv sh srv.ttl W) (hz : z.Lawful) (hk : srv.key ∉ keys)
     (hknown : ReqKnown E (W.toks sh z srv.key) keys r) (hnf : r.who.NulFreeDomain) (hnm : NulFree r.method)
     (h : recover sh E z D srv (W.caches i) r = (effs, .ok acc)) : Sound sh E z srv W r acc := by
   unfold recover at h
@@ -821,15 +848,23 @@ theorem recover_sound {sh : Shape} {E : Wire} {z : Zstd} {D : Decoders} {srv : S
   have hc' : openCursorObs sh.strictB64 z srv.key (aad r.who) srv.ttl r.now (E.observe r.cursor) = .ok (st, cid) := hc
   obtain ⟨cm, hcm, c1, c2, c3, c4, c5, c6⟩ := openCursor_sound hz hk hinv.wfc hknown.1 hnf hc'
   obtain ⟨km1, hkm1, o1, o2, o3⟩ := hinv.owner cm hcm
-  rcases hcase with ⟨e, hl, hacc, hme, _⟩ | ⟨hl, e, hr, hacc⟩
-  · have hl' : W.caches i cid (cacheIdent r.who) = some e := hl
+  rcases hcase with ⟨e, hl, hacc, hme, _⟩ | ⟨hl, e, created, hr, hacc⟩
+  · have hl' : (W.caches i).get cid (cacheIdent r.who) r.now = some e := hl
     have hme' : sh.methodBound = true → e.method = r.method := hme
-    obtain ⟨km0, hkm0, k1, k2, k3, k4⟩ := hinv.cache i cid _ e hl'
+    obtain ⟨exp, hraw, hlive⟩ := cache_get_some hl'
+    obtain ⟨km0, hkm0, k1, k2, k3, k4, k5⟩ := hinv.cache i cid _ exp e hraw
     have heq : km0 = km1 := hinv.distinct km0 hkm0 km1 hkm1 (by rw [k1, o1, c5])
     subst heq
     subst hacc
+    have hfresh : Fresh srv.ttl r.now km0.t := by
+      unfold Fresh
+      by_cases h0 : srv.ttl = 0
+      · exact Or.inl h0
+      · right
+        have := k5 (by omega)
+        omega
     refine ⟨cm, hcm, km0, hkm0, ?_⟩
-    exact SoundFor.mk c1 c2 c3 c4 c5 c6 k1 (by rw [o2, c3]) k3
+    exact SoundFor.mk c1 c2 c3 c4 c5 c6 k1 (by rw [o2, c3]) k3 hfresh
       (fun hb => ⟨by rw [k4 hb]; exact hme' hb, by rw [← o3 hb, k4 hb]; exact hme' hb, hme' hb⟩)
       (fun hh => by cases hh)
   · obtain ⟨co, body, hcall, ho, he⟩ := resolveCallFromToken_ok hr
@@ -841,8 +876,8 @@ theorem recover_sound {sh : Shape} {E : Wire} {z : Zstd} {D : Decoders} {srv : S
       simp only [Option.map, Option.some.injEq] at hcall'
       subst hcall'
       have ho' : openCallObs sh.strictB64 z srv.key (callAad sh.methodBound r.method r.who) srv.ttl r.now (E.observe cw)
-          = .ok (cid, body) := ho
-      obtain ⟨km, hkm, d1, d2, d3, d4, d5, d6, d7⟩ :=
+          = .ok (cid, body, created) := ho
+      obtain ⟨km, hkm, d1, d2, d3, d4, d5, d6, d7, d8⟩ :=
         openCall_sound hz hk hinv.wfk (fun t ht => hknown.2 cw t hrc ht) hnf hnm ho'
       have heq : km = km1 := hinv.distinct km hkm km1 hkm1 (by rw [d5, o1, c5])
       subst heq
@@ -850,21 +885,24 @@ theorem recover_sound {sh : Shape} {E : Wire} {z : Zstd} {D : Decoders} {srv : S
       have hem : e.method = r.method := by rw [he]; rfl
       have heb : e.body = body := by rw [he]
       refine ⟨cm, hcm, km, hkm, ?_⟩
-      exact SoundFor.mk c1 c2 c3 c4 c5 c6 d5 d3 (by rw [d6, heb])
+      exact SoundFor.mk c1 c2 c3 c4 c5 c6 d5 d3 (by rw [d6, heb]) d7
         (fun hb => ⟨d4 hb, by rw [← o3 hb]; exact d4 hb, hem⟩)
-        (fun _ => ⟨cw, hrc, d1, d2, d7⟩)
+        (fun _ => ⟨d8, cw, hrc, d1, d2⟩)
 
-theorem inv_empty (sh : Shape) : Inv sh World.empty :=
+theorem inv_empty (sh : Shape) (ttl : Nat) : Inv sh ttl World.empty :=
   { wfc := by intro cm h; cases h
     wfk := by intro km h; cases h
     distinct := by intro a h; cases h
     owner := by intro cm h; cases h
-    cache := by intro i cid s e h; simp [World.empty] at h }
+    cache := by intro i cid s exp e h; simp [World.empty] at h }
+
+theorem cacheDeadline_le (ttl : Nat) (t : Nat) (now : Int) (h : ttl > 0) : cacheDeadline ttl t now ≤ (t : Int) + (ttl : Int) := by
+  unfold cacheDeadline; rw [if_pos h]; omega
 
 theorem step_inv {sh : Shape} {E : Wire} {z : Zstd} {D : Decoders} {srv : Server} {keys : List KeyId} {W W' : World}
-    (hz : z.Lawful) (hk : srv.key ∉ keys) (hinv : Inv sh W) (hs : Step sh E z D srv keys W W') : Inv sh W' := by
+    (hz : z.Lawful) (hk : srv.key ∉ keys) (hinv : Inv sh srv.ttl W) (hs : Step sh E z D srv keys W W') : Inv sh srv.ttl W' := by
   cases hs with
-  | init i km cur hwf hfresh hcur =>
+  | init i km cur now hwf hfresh hcur =>
     refine { wfc := ?_, wfk := ?_, distinct := ?_, owner := ?_, cache := ?_ }
     · intro cm hcm
       simp only at hcm
@@ -902,20 +940,22 @@ theorem step_inv {sh : Shape} {E : Wire} {z : Zstd} {D : Decoders} {srv : Server
           exact ⟨km, by simp, rfl, rfl, fun _ => rfl⟩
       · obtain ⟨k, hk', r⟩ := hinv.owner cm h
         exact ⟨k, by simp [hk'], r⟩
-    · intro j cid s e hl
+    · intro j cid s exp e hl
       simp only [setCache] at hl
       by_cases hj : j = i
       · rw [if_pos hj] at hl
         unfold Cache.put at hl
         split at hl
         · rename_i hc
-          simp only [Option.some.injEq] at hl
-          subst hl
-          exact ⟨km, by simp, hc.1.symm, hc.2.symm, rfl, fun _ => rfl⟩
-        · obtain ⟨k, hk', r⟩ := hinv.cache i cid s e hl
+          simp only [Option.some.injEq, Prod.mk.injEq] at hl
+          obtain ⟨hexp, he⟩ := hl
+          subst he
+          refine ⟨km, by simp, hc.1.symm, hc.2.symm, rfl, fun _ => rfl, ?_⟩
+          intro hpos; rw [← hexp]; exact cacheDeadline_le _ _ _ hpos
+        · obtain ⟨k, hk', r⟩ := hinv.cache i cid s exp e hl
           exact ⟨k, by simp [hk'], r⟩
       · rw [if_neg hj] at hl
-        obtain ⟨k, hk', r⟩ := hinv.cache j cid s e hl
+        obtain ⟨k, hk', r⟩ := hinv.cache j cid s exp e hl
         exact ⟨k, by simp [hk'], r⟩
   | turn i r acc effs next hknown hnf hnm hrec hnext =>
     obtain ⟨cm, hcm, km, hkm, S⟩ := recover_sound hinv hz hk hknown hnf hnm hrec
@@ -944,41 +984,42 @@ theorem step_inv {sh : Shape} {E : Wire} {z : Zstd} {D : Decoders} {srv : Server
           subst h
           exact ⟨km, hkm, S.callId, S.callWho, fun hb => (S.method hb).1⟩
       · exact hinv.owner c h
-    · intro j cid s e hl
+    · intro j cid s exp e hl
       simp only [setCache] at hl
       by_cases hj : j = i
       · rw [if_pos hj] at hl
         cases hh : acc.hit with
-        | true => rw [hh] at hl; simp only [if_true] at hl; exact hinv.cache i cid s e hl
+        | true => rw [hh] at hl; simp only [if_true] at hl; exact hinv.cache i cid s exp e hl
         | false =>
           rw [hh] at hl; simp only [Bool.false_eq_true, if_false] at hl
           unfold Cache.put at hl
           split at hl
           · rename_i hc
-            simp only [Option.some.injEq] at hl
-            subst hl
-            refine ⟨km, hkm, ?_, ?_, S.callBody, ?_⟩
+            simp only [Option.some.injEq, Prod.mk.injEq] at hl
+            obtain ⟨hexp, he⟩ := hl
+            subst he
+            refine ⟨km, hkm, ?_, ?_, S.callBody, ?_, ?_⟩
             · rw [S.callId]; exact hc.1.symm
             · rw [S.callWho]; exact hc.2.symm
             · intro hb; rw [(S.method hb).1, (S.method hb).2.2]
-          · exact hinv.cache i cid s e hl
+            · intro hpos; rw [← hexp, (S.miss hh).1]; exact cacheDeadline_le _ _ _ hpos
+          · exact hinv.cache i cid s exp e hl
       · rw [if_neg hj] at hl
-        exact hinv.cache j cid s e hl
+        exact hinv.cache j cid s exp e hl
   | evict i c hsub =>
     refine { wfc := hinv.wfc, wfk := hinv.wfk, distinct := hinv.distinct, owner := hinv.owner, cache := ?_ }
-    intro j cid s e hl
+    intro j cid s exp e hl
     simp only [setCache] at hl
     by_cases hj : j = i
     · rw [if_pos hj] at hl
-      exact hinv.cache i cid s e (hsub cid s e hl)
+      exact hinv.cache i cid s exp e (hsub cid s (exp, e) hl)
     · rw [if_neg hj] at hl
-      exact hinv.cache j cid s e hl
+      exact hinv.cache j cid s exp e hl
 
 theorem reachable_inv {sh : Shape} {E : Wire} {z : Zstd} {D : Decoders} {srv : Server} {keys : List KeyId} {W : World}
-    (hz : z.Lawful) (hk : srv.key ∉ keys) (h : Reachable sh E z D srv keys W) : Inv sh W := by
+    (hz : z.Lawful) (hk : srv.key ∉ keys) (h : Reachable sh E z D srv keys W) : Inv sh srv.ttl W := by
   induction h with
-  | start => exact inv_empty sh
+  | start => exact inv_empty sh srv.ttl
   | step _ hs ih => exact step_inv hz hk ih hs
-
 
 end VgiVerif.Token
